@@ -320,3 +320,81 @@ Proof.
   - destruct b as [|y b'] eqn:Eqb; [apply Permutation_sym, Permutation_nil in Pf; discriminate|].
     destruct Hop as [-> | [-> | ->]]; rewrite Es; reflexivity.
 Qed.
+
+(* ArgMin / ArgMax over integer values without ties: the chosen argument does not depend on the arrival order *)
+Definition arg_pairs (vs : list val) : list (val * val) :=
+  flat_map (fun v => match v with
+                     | VRec [(_, a); (_, b)] => if is_null b then [] else [(a, b)]
+                     | _ => [] end) vs.
+Definition zof (v : val) : Z := match v with VInt z => z | _ => 0%Z end.
+
+Definition arg_step (want_lt : bool) (acc : res (val * val)) (x : val * val) : res (val * val) :=
+  bind acc (fun a =>
+    match val_ltb (snd x) (snd a) with
+    | Some lt => if Bool.eqb lt want_lt && negb (val_eqb (snd x) (snd a)) then Ok x else Ok a
+    | None => Fail E_TYPE
+    end).
+
+Lemma arg_fold_int want_lt : forall ps p, all_int (map snd (p :: ps)) = true ->
+  exists r, fold_left (arg_step want_lt) ps (Ok p) = Ok r /\ In r (p :: ps) /\
+    (forall q, In q (p :: ps) -> ext_ok want_lt (zof (snd r)) (zof (snd q))).
+Proof.
+  induction ps as [|x ps IH]; intros p H.
+  - exists p. split; [reflexivity|]. split; [left; reflexivity|].
+    intros q [<-|[]]. unfold ext_ok. destruct want_lt; lia.
+  - cbn [map all_int] in H. destruct p as [pa pv]. destruct x as [xa xv]. cbn [snd] in H.
+    destruct pv as [|zp| | |]; try discriminate. destruct xv as [|zx| | |]; try discriminate.
+    cbn [fold_left]. unfold arg_step at 2. cbn [bind snd val_ltb val_eqb].
+    assert (Hn : exists p', (if Bool.eqb (zx <? zp)%Z want_lt && negb (zx =? zp)%Z then Ok (xa, VInt zx) else Ok (pa, VInt zp)) = Ok p'
+               /\ (p' = (pa, VInt zp) \/ p' = (xa, VInt zx)) /\ ext_ok want_lt (zof (snd p')) zp /\ ext_ok want_lt (zof (snd p')) zx).
+    { unfold ext_ok. destruct (Z.ltb_spec zx zp), (Z.eqb_spec zx zp), want_lt; cbn [Bool.eqb andb negb];
+        try (exists (pa, VInt zp); split; [reflexivity|]; split; [left; reflexivity|]; cbn [snd zof]; lia);
+        try (exists (xa, VInt zx); split; [reflexivity|]; split; [right; reflexivity|]; cbn [snd zof]; lia). }
+    destruct Hn as [p' [E [Hor [Hp Hx]]]]. rewrite E.
+    assert (H' : all_int (map snd (p' :: ps)) = true) by (destruct Hor as [-> | ->]; exact H).
+    destruct (IH p' H') as [r [Hr [Hin Hall]]].
+    exists r. split; [exact Hr|]. split.
+    + destruct Hin as [<-|Hin]; [|right; right; exact Hin].
+      destruct Hor as [-> | ->]; [left; reflexivity | right; left; reflexivity].
+    + intros q Hq. pose proof (Hall p' (or_introl eq_refl)) as Hp'.
+      destruct Hq as [<-|[<-|Hq]]; cbn [snd zof].
+      * unfold ext_ok in *. destruct want_lt; lia.
+      * unfold ext_ok in *. destruct want_lt; lia.
+      * apply Hall. right. exact Hq.
+Qed.
+
+Lemma nodup_snd_inj (l : list (val * val)) a b :
+  NoDup (map (fun p => zof (snd p)) l) -> In a l -> In b l -> zof (snd a) = zof (snd b) -> a = b.
+Proof.
+  induction l as [|x l IH]; intros ND Ha Hb E; [contradiction|].
+  cbn [map] in ND. inversion ND as [|? ? Hnot ND']; subst.
+  destruct Ha as [<-|Ha], Hb as [<-|Hb]; try reflexivity.
+  - exfalso. apply Hnot. rewrite E. apply (in_map (fun p => zof (snd p))), Hb.
+  - exfalso. apply Hnot. rewrite <- E. apply (in_map (fun p => zof (snd p))), Ha.
+  - apply IH; assumption.
+Qed.
+
+Theorem argmin_argmax_arrival_order want_lt vals vals' :
+  all_int (map snd (arg_pairs vals)) = true ->
+  NoDup (map (fun p => zof (snd p)) (arg_pairs vals)) ->
+  Permutation vals vals' ->
+  arg_ext want_lt vals = arg_ext want_lt vals'.
+Proof.
+  intros H ND P.
+  assert (Pp : Permutation (arg_pairs vals) (arg_pairs vals')) by (apply Permutation_flat_map, P).
+  assert (H' : all_int (map snd (arg_pairs vals')) = true)
+    by (rewrite <- (all_int_perm _ _ (Permutation_map snd Pp)); exact H).
+  unfold arg_ext. fold (arg_pairs vals). fold (arg_pairs vals').
+  destruct (arg_pairs vals) as [|p ps] eqn:Ea.
+  - apply Permutation_nil in Pp. rewrite Pp. reflexivity.
+  - destruct (arg_pairs vals') as [|p' ps'] eqn:Eb; [apply Permutation_sym, Permutation_nil in Pp; discriminate|].
+    destruct (arg_fold_int want_lt ps p H) as [r [Er [Ir Ar]]].
+    destruct (arg_fold_int want_lt ps' p' H') as [r' [Er' [Ir' Ar']]].
+    change (fold_left _ ps (Ok p)) with (fold_left (arg_step want_lt) ps (Ok p)).
+    change (fold_left _ ps' (Ok p')) with (fold_left (arg_step want_lt) ps' (Ok p')).
+    rewrite Er, Er'. cbn [bind]. f_equal. f_equal.
+    assert (I1 : In r (p' :: ps')) by (eapply Permutation_in; eassumption).
+    assert (I2 : In r' (p :: ps)) by (eapply Permutation_in; [apply Permutation_sym|]; eassumption).
+    apply (nodup_snd_inj (p :: ps)); [exact ND | exact Ir | exact I2 |].
+    pose proof (Ar r' I2) as A1. pose proof (Ar' r I1) as A2. unfold ext_ok in *. destruct want_lt; lia.
+Qed.
